@@ -278,10 +278,11 @@ package queue
 //   items' = Head ++ old[0..p) ++ (S ? [] : [t]) ++ After ++ old(p..n) ++ Tail      (p >= 0)
 //   items' = Head ++ old ++ Tail                                                      (t no longer queued)
 //@ func (*TaskQueue).Start$1$1
-//@   prop C05
+//@   prop C05, C04
+//@   requires [only-success-or-keep] taskRes.Status == Success || taskRes.Status == Keep
 //@   requires q != nil && t != nil && NoNil(q.items)
 //@   requires NoNil(taskRes.AfterTasks) && NoNil(taskRes.HeadTasks) && NoNil(taskRes.TailTasks)
-//@   requires (len(taskRes.AfterTasks) == 0 || base(taskRes.AfterTasks) != base(q.items)) && (len(taskRes.HeadTasks) == 0 || base(taskRes.HeadTasks) != base(q.items)) && (len(taskRes.TailTasks) == 0 || base(taskRes.TailTasks) != base(q.items))
+//@   requires [assumed:handler-results-do-not-share-the-queue-storage] (len(taskRes.AfterTasks) == 0 || base(taskRes.AfterTasks) != base(q.items)) && (len(taskRes.HeadTasks) == 0 || base(taskRes.HeadTasks) != base(q.items)) && (len(taskRes.TailTasks) == 0 || base(taskRes.TailTasks) != base(q.items))
 //@   modifies q.items, allelems(task.Task)
 //@   let id := t.GetId()
 //@   let p := old(firstIdx(q.items, t.GetId()))
@@ -330,6 +331,13 @@ package queue
 //@     invariant (p >= 0 && succ ==> forall(j, nH+p, nH+p+nA, q.items[j] == old(taskRes.AfterTasks)[j-(nH)-p]) && forall(j, nH+p+nA, nH+n-1+nA, q.items[j] == old(q.items)[j-(nH)-nA+1]))
 //@     invariant forall(j, nH+L, nH+L+iter(), q.items[j] == old(taskRes.TailTasks)[j-nH-L])
 
+// ghosts of the worker loop
+//@ ghost lastWaited task.Task
+//@ ghost lastHandled task.Task
+//@ ghost lastStatus TaskStatus
+//@ ghost lastDelayBefore time.Duration
+//@ ghost lastBackoff time.Duration
+
 // ---- C17 / C03: handing out the next task ---------------------------------------------------
 
 //@ trusted func (*TaskQueue).SetStatus
@@ -343,7 +351,44 @@ package queue
 //@ func (*TaskQueue).waitForTask
 //@   prop C17, C03
 //@   requires q.ctx != nil
-//@   modifies q.items, q.measureActionFn, q.Status, q.waitInProgress, q.cancelDelay
+//@   modifies q.items, q.measureActionFn, q.Status, q.waitInProgress, q.cancelDelay, lastWaited
 //@   ensures [fresh-check] result != nil ==> ctxfresh()
+//@   ensures [done-nil]    result != nil ==> ctxdone() == old(ctxdone())
+//@   ensures [ghost]       lastWaited == result
 //@   loop 1
-//@     invariant true
+//@     invariant ctxdone() == old(ctxdone())
+
+// ---- the worker goroutine -------------------------------------------------------------------
+
+// Funcspec of the queue handler (installed by the operator: ShellOperator.taskHandler). Its
+// precondition is what the worker must guarantee at the call (C03: the task is the one just
+// handed out by waitForTask = the head; no lock is held while the handler runs; C17: the context
+// was checked right before); its postcondition is ASSUMED of every handler (results well formed).
+//@ trusted func TaskQueue.Handler
+//@   requires [head-task]     arg0 == lastWaited && arg0 != nil
+//@   requires [no-lock-held]  nolocks()
+//@   requires [fresh-context] ctxfresh()
+//@   modifies lastHandled, lastStatus, lastDelayBefore
+//@   ensures lastHandled == arg0 && lastStatus == result.Status && lastDelayBefore == result.DelayBeforeNextTask
+//@   ensures NoNil(result.AfterTasks) && NoNil(result.HeadTasks) && NoNil(result.TailTasks)
+
+//@ trusted func TaskQueue.ExponentialBackoffFn
+//@   modifies lastBackoff
+//@   ensures lastBackoff == result
+
+//@ trusted func (*TaskQueue).debugf
+//@   modifies nothing
+//@ trusted func (*TaskQueue).String
+//@   modifies q.measureActionFn
+
+// C03: one handler activation at a time, on the head task; C04: a failed task stays where it is
+// and the next wait is the back-off delay; C17: once the context is seen done the worker never
+// reaches the handler again.
+//@ func (*TaskQueue).Start$1
+//@   prop C03, C04, C17
+//@   requires q != nil && q.ctx != nil && q.Handler != nil && q.ExponentialBackoffFn != nil && !ctxdone() && lastStatus != Fail
+//@   modifies q.items, q.measureActionFn, q.Status, q.waitInProgress, q.cancelDelay, lastWaited, lastHandled, lastStatus, lastDelayBefore, lastBackoff, allelems(task.Task)
+//@   loop 1
+//@     invariant [no-handler-after-done] !ctxdone()
+//@     invariant [backoff-after-fail]    lastStatus == Fail && lastDelayBefore == 0 ==> sleepDelay == lastBackoff
+//@     invariant [delay-requested]       lastStatus == Fail && lastDelayBefore != 0 ==> sleepDelay == lastDelayBefore
